@@ -94,7 +94,11 @@ def valid_for(content: bytes, types=TYPES):
                 pass
             continue
         if text is None:
-            undecided.add(t)       # not valid as a byte encoding: outside "syntactically valid" (DESIGN 6.2)
+            # not valid UTF-8.  JSON text is UTF-8 by definition (RFC 8259 section 8.1; JSON5 inherits it), so such
+            # a file is not a JSON / JSON5 document.  For the other formats (YAML allows UTF-16/32, XML / HTML / plist
+            # declare or sniff their encoding) this is left undecided (DESIGN 6.2).
+            if t not in ("json", "json5"):
+                undecided.add(t)
             continue
         try:
             if t == "json":
